@@ -126,6 +126,21 @@ package recordio
 //@   exit [C04,C07:buffer-flushed] r0 == nil ==> called(WriteSeekerCloserFlusher.Flush, 0) && callres(WriteSeekerCloserFlusher.Flush, 0, 0) == nil
 //@   ensures [marked-closed] w.closed && !w.open
 
+// Random access reader interface (ReadAtI): reads do not change anything a caller can see.
+//@ func NewMemoryMappedReaderWithPath
+//@   assumed
+//@   ensures r1 == nil ==> r0 != nil
+//@   ensures r1 != nil ==> r0 == nil
+//@   fresh r0
+//@   modifies nothing
+
+//@ iface ReadAtI.Open
+//@   modifies nothing
+
+//@ iface ReadAtI.ReadNextAt
+//@   ensures r1 != nil ==> isnil(r0)
+//@   modifies nothing
+
 // Sequential reader interface (ReaderI) as its users see it: rdPos(r) records were consumed so far.
 //@ ghost rdPos(r Ref) Int
 //@ ghost rdClosed(r Ref) Bool
